@@ -81,7 +81,10 @@ Qed.
 
 Lemma tinv_reachable cfg fx sp s : reachable_gen cfg fx sp s -> TInv s.
 Proof.
-  induction 1 as [|s te s' R IH H]; [apply tinv_init|]. eapply tinv_step; eauto. eapply inv_reachable; eauto.
+  induction 1 as [|s te s' R IH H|s te s' R IH H]; [apply tinv_init| |].
+  - eapply tinv_step; eauto. eapply inv_reachable; eauto.
+  - destruct te as [t e]. destruct (xstep_inv _ _ _ _ H) as (Et & _ & (_ & _ & _ & _ & T & _) & _).
+    intros u. rewrite Et, T. apply IH.
 Qed.
 
 (** No job is started (popped) once terminate_ is set -- by terminate() or by the destructor. *)
